@@ -29,6 +29,7 @@ RULE = (
 ASSUMPTIONS = [
     "Pulser marks atom k as badly prepared iff its uniform draw is below state_prep_error (scripted draw 0.0 / 0.999999)",
     "reference for the good atoms = dense expm / Lindblad propagation of the register with the bad atoms removed (mc/ref)",
+    "emu-mps + relaxation (rate 6/us): scripted jump threshold 1e-9, i.e. the no-jump trajectory; reference = reduced register under H - i/2 sum L^dag L, normalised",
     "emu-mps + leakage: eff-noise rate 1e-9 and scripted jump threshold 0.5, i.e. the no-jump trajectory, compared with the noiseless reference (norm loss < 1e-9)",
 ]
 CHUNK = 1
@@ -39,7 +40,7 @@ def bounds(tier, seed):
         "registers": ["pair", "bent3", "zig4"],
         "masks": "all 2^N",
         "drives": ["global", "dmm", "local"],
-        "other_noise": {"sv": ["none", "relaxation"], "mps": ["none", "leakage"]},
+        "other_noise": {"sv": ["none", "relaxation"], "mps": ["none", "leakage", "relaxation (no-jump trajectory)"]},
         "ordering": "off; on with every p in S_N (N<=3), generators of S_4 (quick) / all of S_4 (thorough)",
     }
 
@@ -58,7 +59,9 @@ def cases(tier, seed):
             for kind in ("global", "dmm", "local"):
                 for other in ("none", "relaxation"):
                     yield {"backend": "sv", "shape": shape, "kind": kind, "other": other, "mask": list(mask), "perm": None}
-                for other in ("none", "leakage"):
+                for other in ("none", "leakage", "nojump_relaxation"):
+                    if other == "nojump_relaxation" and kind == "local":
+                        continue
                     yield {"backend": "mps", "shape": shape, "kind": kind, "other": other, "mask": list(mask), "perm": None}
                     if other == "none" and kind != "global":
                         for p in _answers(n, tier):
@@ -92,8 +95,8 @@ def _noise(other):
     import pulser
 
     kw = dict(state_prep_error=0.25, p_false_pos=0.0, p_false_neg=0.0)
-    if other == "relaxation":
-        kw["relaxation_rate"] = 0.8
+    if other in ("relaxation", "nojump_relaxation"):
+        kw["relaxation_rate"] = 0.8 if other == "relaxation" else 6.0
     if other == "leakage":
         op = np.zeros((3, 3), dtype=complex)
         op[2, 2] = 1
@@ -123,7 +126,8 @@ def _run(case, shots=0, dt=10):
         if case["backend"] == "sv":
             res, _ = runner.run_sv(spec, cfg, observables=obs, noise=noise)
         else:
-            with seams.module_random(impl_mod, seams.ScriptedRandom(default_uniform=0.5, default_choice=0)):
+            # jump threshold: 0.5 for the (rate 1e-9) leakage runs; 1e-9 for the relaxation runs, i.e. the no-jump trajectory whose norm really decays
+            with seams.module_random(impl_mod, seams.ScriptedRandom(default_uniform=1e-9 if case["other"] == "nojump_relaxation" else 0.5, default_choice=0)):
                 if case["perm"] is not None:
                     with seams.optimiser_answer(case["perm"]):
                         res, _ = runner.run_mps(spec, cfg, observables=obs, noise=noise)
@@ -147,6 +151,14 @@ def _reference(case, dt=10):
             L[0, 1] = np.sqrt(0.8)
             Ls = R.embed_all([L], len(keep), 2)
         ref = runner.Ref(spec, {"dt": dt, "eval": [0.5, 1.0]}, slm_rule="mid", Ls=Ls)
+        if case["other"] == "nojump_relaxation":
+            # no-jump trajectory: evolution under H - i/2 sum L^dag L, observables of the NORMALISED state
+            L = np.zeros((2, 2), dtype=complex)
+            L[0, 1] = np.sqrt(6.0)
+            term = -0.5j * L.conj().T @ L
+            Hs = [H + sum(R.embed(term, q, len(keep), 2) for q in range(len(keep))) for H in ref.Hs]
+            sts = R.propagate_sv(ref.states[0], Hs, ref.times)
+            ref.states = [v / np.linalg.norm(v) for v in sts]
         for t in (0.5, 1.0):
             o = ref.observables(t)
             occ[t][keep] = o["occupation"]
